@@ -96,3 +96,58 @@ def snap_diff(a, b):
         if a.get(p) != b.get(p):
             d[p] = (a.get(p), b.get(p))
     return d
+
+class Mcp:
+    """JSON-RPC stdio client for `agentpack mcp serve` (newline-delimited JSON)."""
+    def __init__(self, sb, extra_env=None):
+        self.sb = sb
+        self.bad_lines = []
+        self.p = subprocess.Popen([AGENTPACK_BIN, 'mcp', 'serve'], cwd=sb.project, env=sb.env(extra_env),
+                                  stdin=subprocess.PIPE, stdout=subprocess.PIPE, stderr=subprocess.DEVNULL)
+        self.id = 0
+        self._send({'jsonrpc': '2.0', 'id': self._next(), 'method': 'initialize',
+                    'params': {'protocolVersion': '2025-06-18', 'capabilities': {},
+                               'clientInfo': {'name': 'verif', 'version': '0'}}})
+        self.init = self._read()
+        self._send({'jsonrpc': '2.0', 'method': 'notifications/initialized', 'params': {}})
+    def _next(self):
+        self.id += 1; return self.id
+    def _send(self, obj):
+        self.p.stdin.write((json.dumps(obj) + '\n').encode()); self.p.stdin.flush()
+    def _read(self):
+        while True:
+            line = self.p.stdout.readline()
+            if not line:
+                raise InfraError('mcp server closed stdout')
+            try:
+                msg = json.loads(line)
+            except Exception:
+                self.bad_lines.append(line[:300].decode('utf-8', 'replace')); continue
+            if not isinstance(msg, dict) or msg.get('jsonrpc') != '2.0':
+                self.bad_lines.append(line[:300].decode('utf-8', 'replace')); continue
+            return msg
+    def request(self, method, params=None):
+        rid = self._next()
+        self._send({'jsonrpc': '2.0', 'id': rid, 'method': method, 'params': params or {}})
+        while True:
+            msg = self._read()
+            if msg.get('id') == rid:
+                return msg
+    def call(self, name, args):
+        """returns (rpc_message, envelope or None)"""
+        msg = self.request('tools/call', {'name': name, 'arguments': args})
+        env = None
+        try:
+            env = msg['result'].get('structuredContent')
+            if env is None:
+                env = json.loads(msg['result']['content'][0]['text'])
+        except Exception:
+            pass
+        return msg, env
+    def close(self):
+        try:
+            self.p.stdin.close(); self.p.wait(timeout=5)
+        except Exception:
+            self.p.kill()
+            try: self.p.wait(timeout=5)
+            except Exception: pass
